@@ -2,7 +2,7 @@
    Only statements here; proofs are in Proofs/PreParse*.v. *)
 Require Import BB.Base.Str BB.Gen.TablesParser BB.Model.PreParse BB.Model.PreParseSpec.
 Require Import BB.Proofs.PreParseNF BB.Proofs.PreParseInvariance BB.Proofs.PreParseScale BB.Proofs.PreParseTrailing.
-Require Import BB.Base.Xml BB.Model.Convert BB.Gen.TablesLibs BB.Proofs.PegLine BB.Proofs.LineRule BB.Proofs.PlainLineConvert BB.Proofs.PreParseStair BB.Proofs.HierElement BB.Proofs.HierElementConvert BB.Proofs.HierChainConvert.
+Require Import BB.Base.Xml BB.Model.Convert BB.Gen.TablesLibs BB.Proofs.PegLine BB.Proofs.LineRule BB.Proofs.PlainLineConvert BB.Proofs.PreParseStair BB.Proofs.HierElement BB.Proofs.HierElementConvert BB.Proofs.HierChainConvert BB.Proofs.EscapeLossless BB.Proofs.HierNoHeading BB.Proofs.HierNoHeadingConvert BB.Proofs.Totality BB.Model.Eid BB.Model.EidSpec BB.Model.XmlGen BB.Base.Dict BB.Model.PegSyntax BB.Model.Peg BB.Model.Types.
 
 (* For every text over the alphabet: the first content line is at depth 0 and, for every two
    consecutive non-blank lines with indentation widths w, w' and depths d, d' (depth = number of
@@ -113,3 +113,33 @@ Theorem C12_nested_document_ignores_indentation_widths : forall uri prefix l0 (l
   = convert uri (of_string "hier_element") prefix (stair_text ((0%nat, header l0) :: rows_of lv' kt' t)).
 Proof. exact nest_ignores_widths. Qed.
 Print Assumptions C12_nested_document_ignores_indentation_widths.
+
+
+(* Blank lines are layout too: in a hierarchical element - with a heading or without - the number of blank lines between the keyword
+   line and its content, and the width of the content's indentation, do not change the document (corollaries of the whole-pipeline
+   conversion theorems, Proofs/HierElementConvert.v and Proofs/HierNoHeadingConvert.v). *)
+Theorem C12_hier_element_layout_irrelevant : forall uri prefix kw n uh ut k1 b1 k2 b2 root_meta att_meta,
+  assoc_str uri meta_templates = Some (root_meta, att_meta) ->
+  In kw hier_keywords ->
+  num_ok n -> Forall (fun c => c <> TAB) n -> clean_num n <> [] -> valid_text n = true ->
+  written_text uh -> written_text ut ->
+  let L := encode ut ++ NL :: 15 :: [NL] in
+  none_starts block_lits L = true -> p_safe L = true -> starts_with SUBH L = false -> no_ctl_start (encode ut) = true ->
+  (1 <= k1)%nat -> (1 <= k2)%nat ->
+  convert uri (of_string "hier_element") prefix (kw ++ 32 :: n ++ 32 :: 45 :: 32 :: encode uh ++ NL :: repeat NL b1 ++ repeat SP k1 ++ encode ut ++ [NL])
+  = convert uri (of_string "hier_element") prefix (kw ++ 32 :: n ++ 32 :: 45 :: 32 :: encode uh ++ NL :: repeat NL b2 ++ repeat SP k2 ++ encode ut ++ [NL]).
+Proof. exact hier_element_layout_irrelevant. Qed.
+Print Assumptions C12_hier_element_layout_irrelevant.
+
+Theorem C12_hier_element_without_heading_layout_irrelevant : forall uri prefix kw n ut k1 b1 k2 b2 root_meta att_meta,
+  assoc_str uri meta_templates = Some (root_meta, att_meta) ->
+  In kw hier_keywords ->
+  num_ok n -> Forall (fun c => c <> TAB) n -> py_isspace (last n 0) = false -> clean_num n <> [] -> valid_text n = true ->
+  written_text ut ->
+  let L := encode ut ++ NL :: 15 :: [NL] in
+  none_starts block_lits L = true -> p_safe L = true -> starts_with SUBH L = false -> no_ctl_start (encode ut) = true ->
+  (1 <= k1)%nat -> (1 <= k2)%nat ->
+  convert uri (of_string "hier_element") prefix (kw ++ 32 :: n ++ NL :: repeat NL b1 ++ repeat SP k1 ++ encode ut ++ [NL])
+  = convert uri (of_string "hier_element") prefix (kw ++ 32 :: n ++ NL :: repeat NL b2 ++ repeat SP k2 ++ encode ut ++ [NL]).
+Proof. exact hier_element_layout_irrelevant_nh. Qed.
+Print Assumptions C12_hier_element_without_heading_layout_irrelevant.
